@@ -1,4 +1,5 @@
 import Pyx12Verif.Props.C17
+import Pyx12Verif.Props.C17Fields
 open Pyx12Verif.Path Pyx12Verif.Segment
 #print axioms parse_print
 #print axioms print_parse_print
@@ -14,3 +15,11 @@ open Pyx12Verif.Path Pyx12Verif.Segment
 #print axioms set_frame_observed
 #print axioms foreign_segment_refused
 #print axioms isa16_component_ignored
+#print axioms matchLast_decomp
+#print axioms decomp_unique
+#print axioms matchLast_fields
+#print axioms matchLast_fields_iff
+#print axioms fields_explicit
+#print axioms parse_fields
+#print axioms parse_fields_designator
+#print axioms parse_fields_loops_only
